@@ -16,6 +16,31 @@ use std::cell::Cell;
 
 thread_local! {
     static FORMAT_LOGS: Cell<bool> = const { Cell::new(false) };
+    /// (nesting flag, records seen) of the sink below
+    static SINK: Cell<(bool, u32)> = const { Cell::new((false, 0)) };
+}
+/// what a DLT sink logger built on this crate does with a record: wrap its text into a small verbose message,
+/// serialise it, and (a loop-back sink) parse it again
+fn sink_record() {
+    use dlt_core::dlt::*;
+    let conf = MessageConfig {
+        version: 1,
+        counter: 0,
+        endianness: Endianness::Big,
+        ecu_id: Some("SINK".to_string()),
+        session_id: None,
+        timestamp: None,
+        payload: PayloadContent::Verbose(vec![Argument {
+            type_info: TypeInfo { kind: TypeInfoKind::StringType, coding: StringCoding::UTF8, has_variable_info: false, has_trace_info: false },
+            name: None,
+            unit: None,
+            fixed_point: None,
+            value: Value::StringVal("log".to_string()),
+        }]),
+        extended_header_info: Some(ExtendedHeaderConfig { message_type: MessageType::Log(LogLevel::Info), app_id: "SNK".to_string(), context_id: "LOG".to_string() }),
+    };
+    let bytes = Message::new(conf, None).as_bytes();
+    std::hint::black_box(dlt_core::parse::dlt_message(&bytes, None, false).is_ok());
 }
 struct NullLogger;
 impl log::Log for NullLogger {
@@ -33,10 +58,22 @@ impl log::Log for NullLogger {
             let s = format!("{}", record.args());
             std::hint::black_box(s);
         }
+        // every 16th record of a thread is also sent through a DLT sink (not while the sink itself is logging)
+        let (nested, seen) = SINK.with(|c| c.get());
+        if !nested {
+            // (every record while a failure is being shrunk or replayed, so that what was found reproduces)
+            let period = if crate::runner::shrinking() || SINK_ALWAYS.load(std::sync::atomic::Ordering::Relaxed) { 1 } else { 16 };
+            SINK.with(|c| c.set((seen % period == 0, seen.wrapping_add(1))));
+            if seen % period == 0 {
+                sink_record();
+                SINK.with(|c| c.set((false, seen.wrapping_add(1))));
+            }
+        }
     }
     fn flush(&self) {}
 }
 static LOGGER: NullLogger = NullLogger;
+pub static SINK_ALWAYS: std::sync::atomic::AtomicBool = std::sync::atomic::AtomicBool::new(false);
 /// Install the null logger at Trace level (argument expressions of every log call get evaluated).
 pub fn install_logger() {
     let _ = log::set_logger(&LOGGER);
